@@ -1,10 +1,56 @@
-(** C08 — reactive cache never serves superseded values and releases every resource (first increment: pipeline). *)
+(** C08 — the reactive cache never serves superseded values and releases every resource.
+
+    Model: Reactive/Graph.v, Reactive/Rerunner.v (see Props/C04.v).  [n_cln (getN s n)] counts how many times the
+    afterRelease callback of node n (the Cleanup callback of a Resource, or the timer.Stop of InvalidateAfter)
+    has run; [n_had]: node n was the dependency of at least one addOut call; [n_hrel]: the registered callback. *)
 From Coq Require Import List.
-From Thunder Require Import Reactive.Graph Reactive.Rerunner.
+From Thunder Require Import Reactive.Graph Reactive.Rerunner Reactive.ProofsBase Reactive.ProofsMutex
+  Reactive.ProofsRefcount Reactive.Drive.
 Import ListNotations.
 
-(* every run of the model starts with one waiting run task per rerunner: the initial state is not quiescent *)
-Theorem init_not_quiescent_partial :
-  forall nslots p ps, ~ quiescent (init nslots (p :: ps)).
-Proof. intros nslots p ps H. unfold quiescent, init in H. simpl in H. discriminate H. Qed.
-Print Assumptions init_not_quiescent_partial.
+(** Under every schedule a cleanup callback runs at most once ... *)
+Theorem cleanup_at_most_once :
+  forall k progs s n, reachable (init k progs) s -> n_cln (getN s n) <= 1.
+Proof. exact cleanup_at_most_once_lemma. Qed.
+Print Assumptions cleanup_at_most_once.
+
+(** ... and only once the node has been released. *)
+Theorem cleanup_only_after_release :
+  forall k progs s n, reachable (init k progs) s -> n_cln (getN s n) = 1 -> n_rel (getN s n) = true.
+Proof. exact cleanup_only_released_lemma. Qed.
+Print Assumptions cleanup_only_after_release.
+
+(** At quiescence every resource that received at least one addOut and has no dependant left (its [out] is
+    empty: every computation that depended on it was superseded, failed or stopped and has been released) is
+    released and its callback ran exactly once. *)
+Theorem cleanup_exactly_once_at_quiescence :
+  forall k progs s n, reachable (init k progs) s -> quiescent s ->
+  n_had (getN s n) = true -> n_out (getN s n) = [] -> n_hrel (getN s n) <> None ->
+  n_rel (getN s n) = true /\ n_cln (getN s n) = 1.
+Proof. exact cleanup_exactly_once_lemma. Qed.
+Print Assumptions cleanup_exactly_once_at_quiescence.
+
+(** non-vacuity: one rerunner reading slot 0 through a cached child and directly; run to quiescence,
+    Invalidate the slot, run to quiescence again: the superseded resource (node 0) has had an addOut, has no
+    dependant left and was cleaned up once; the published output carries the new version twice. *)
+Definition ex_prog : list op := [OCache 0 [ODep 0]; ODep 0].
+Definition ex_s1 : state := run_to_quiet 200 (init 1 [(ex_prog, true)]).
+Definition ex_s2 : state :=
+  match step ex_s1 (LInvalidate 0) with Some s => run_to_quiet 400 s | None => ex_s1 end.
+
+Example ex_reachable : reachable (init 1 [(ex_prog, true)]) ex_s2.
+Proof.
+  assert (R1 : reachable (init 1 [(ex_prog, true)]) ex_s1).
+  { unfold ex_s1, run_to_quiet. destruct (run (init 1 [(ex_prog, true)]) (drive 200 (init 1 [(ex_prog, true)]))) eqn:E.
+    - eapply run_reachable; [apply reach_init | exact E].
+    - apply reach_init. }
+  unfold ex_s2. destruct (step ex_s1 (LInvalidate 0)) eqn:E; [|exact R1].
+  unfold run_to_quiet. destruct (run s (drive 400 s)) eqn:E2.
+  - eapply run_reachable; [eapply reach_step; [exact R1 | exact E] | exact E2].
+  - eapply reach_step; [exact R1 | exact E].
+Qed.
+
+Example ex_quiescent_and_cleaned :
+  quiescent ex_s2 /\ n_had (getN ex_s2 0) = true /\ n_out (getN ex_s2 0) = [] /\ n_hrel (getN ex_s2 0) <> None /\
+  n_cln (getN ex_s2 0) = 1 /\ slot_ver ex_s2 0 = 1 /\ r_out (getr ex_s2 0) = Some [(0, 1); (0, 1)].
+Proof. vm_compute. repeat split; discriminate. Qed.
